@@ -151,7 +151,8 @@ CHECKS = {
                 "its parent. The unrestricted form of (2) is refuted in Coq with a witness (index list [2;0;1]) - a recorded known finding whose "
                 "root cause is bloqade.geometry's SubGrid arithmetic. Tie: the analysis model is compared with ZoneAnalysis entries for every "
                 "top-level SSA value of generated kernels (two specs, unfolded and folded), and site containment is checked on run-time values "
-                "recorded by an instrumented interpreter.",
+                "recorded by an instrumented interpreter. On every run the transfer functions (the handlers of impl/{spec,grid,py}.py, "
+                "get_grid_lattice, the fallback, lattice.py's hierarchy) are translated from source (fail-closed) and proved equal to the model's.",
         "note": NOTE_COMMON + " Values inside branches/loops/callees get no entries from the analysis (no method tables for scf/func) and are outside the model.",
         "technique": "Coq soundness proof of the abstract transfer functions (provenance) + exact-rational geometry lemma + correspondence",
     },
